@@ -3,11 +3,11 @@ package main
 // C16 — packet type dispatch follows the first byte and header flags are preserved.
 
 import (
-	"strconv"
 	"fmt"
 	"go/token"
 	"go/types"
 	"sort"
+	"strconv"
 	"strings"
 
 	"golang.org/x/tools/go/ssa"
